@@ -7,6 +7,18 @@ ON_ROTATION_CHANGE_EVENT_NAME = 'on_rotation_change'
 ON_SCALE_CHANGE_EVENT_NAME = 'on_scale_change'
 
 
+def _reduce_degrees(angle) -> float:
+    """Reduce an angle in degrees to the range [0, 360)."""
+    # Reduce before converting: whole numbers stay exact
+    reduced = angle % 360
+    # Some number types give the remainder the sign of the dividend
+    # (eg. decimal.Decimal)
+    if reduced < 0:
+        reduced += 360
+
+    return float(reduced)
+
+
 class Transform2D(EventDispatcher):
     """Spatial component: position, rotation and scale in a 2D world.
 
@@ -31,8 +43,7 @@ class Transform2D(EventDispatcher):
         super().__init__()
 
         self._position: dmath.Vec2 = dmath.Vec2(*position)
-        # Reduce before converting: whole numbers stay exact
-        self._rotation: float = float(rotation % 360)
+        self._rotation: float = _reduce_degrees(rotation)
         self._scale: dmath.Vec2 = dmath.Vec2(*scale)
 
     @property
@@ -50,7 +61,7 @@ class Transform2D(EventDispatcher):
 
     @rotation.setter
     def rotation(self, value):
-        self._rotation = float(value % 360)
+        self._rotation = _reduce_degrees(value)
         self.dispatch(ON_ROTATION_CHANGE_EVENT_NAME, self._rotation)
 
     @property
